@@ -29,6 +29,10 @@ LITERAL_SPELLINGS = [
 ]
 
 
+ODD_STRINGS = ["A\x0cB", "P\x0bQ", "L\x85M", "U\u2028V", "T\tU", "'Q", "a:b", "(*x*)", "\\", "RUN X", "X: STRING<<>>", "1,2", " ", "  Z  ",
+               "ELSE", "REM", "?", "\x7f", "\x1c"]
+
+
 def shapes(k, ops_bin, ops_un, allow_par=True):
     """All expression shapes with exactly k operator nodes; leaves are None placeholders."""
     if k == 0:
@@ -296,8 +300,9 @@ def all_fns(e, out=None):
 class ExprGen(object):
     def __init__(self, rng, num_vars=NUM_VARS, str_vars=STR_VARS, num_arrays=(), str_arrays=(),
                  funcs=True, conv=True, logic=True, hexlit=True, strings=True, device_funcs=False,
-                 literals=None):
+                 literals=None, odd=0.04):
         self.r = rng
+        self.odd = odd
         self.nv = list(num_vars)
         self.sv = list(str_vars)
         self.na = list(num_arrays)
@@ -389,6 +394,10 @@ class ExprGen(object):
                 name, nd = r.choice(self.sa)
                 return ("arr", name, [self.small_int() for _ in range(nd)])
             pool = ["A", "AB", "ABC", "B", "XY", "HELLO"] + ([] if nonempty else [""])
+            if r.random() < self.odd:
+                # contents a text-processing step might trip over: characters some routines take for line ends, comment
+                # and statement delimiters, keywords, the size tag of the library
+                pool = ODD_STRINGS
             return ("str", r.choice(pool))
         x = r.random()
         if x < 0.3:
